@@ -134,6 +134,15 @@ func c14Record(tier string, seed int64, emit func(interface{})) {
 		}
 		return string(b)
 	}
+	// seqids: any text free of white space (punctuation included, also in front) - except a leading "##", which
+	// would make the line a directive
+	seqid := func() string {
+		id := field(10, "#|@+%*!,()[]")
+		if strings.HasPrefix(id, "##") {
+			id = "x" + id
+		}
+		return id
+	}
 	var pending []func()
 	for i := 0; i < n; i++ {
 		ln := 1 + rng.Intn(5000)
@@ -169,7 +178,7 @@ func c14Record(tier string, seed int64, emit func(interface{})) {
 			case 2:
 				s, e = ln, ln
 			}
-			f := poly.Feature{Name: field(10, ""), Source: field(8, " "), Type: field(8, ""), Score: []string{".", "0.5", "13"}[rng.Intn(3)],
+			f := poly.Feature{Name: seqid(), Source: field(8, " "), Type: field(8, ""), Score: []string{".", "0.5", "13"}[rng.Intn(3)],
 				Strand: []string{"+", "-", "."}[rng.Intn(3)], Phase: []string{".", "0", "1", "2"}[rng.Intn(4)], Attributes: map[string]string{}}
 			f.Source = strings.TrimSpace(f.Source) + "x"
 			f.SequenceLocation = poly.Location{Start: s - 1, End: e}
